@@ -125,7 +125,7 @@ static void sweep(Rig &R, Acc &acc, int offset, int msb, int lsb, bool perc, con
             for(int k = 0; k < 4; k++) VCHECK(pt.mul[k] == want_mul, "operator %d multiplier register is 0x%02X inside the native range, instrument has 0x%02X (%s)", k, pt.mul[k], want_mul, cx.c_str());
             acc.points++;
             bool nt = (bend14 != 8192 && msb + lsb > 0) || pt.block >= 1;
-            if(nt) { acc.nontrivial++; if(acc.samples.size() < 3 && acc.points % 4099 == 5) acc.samples.push_back(cx + fmt(" -> block %d fnum %d = %.2f Hz", pt.block, pt.fnum, pt.hz)); }
+            if(nt) { acc.nontrivial++; if(acc.samples.size() < 3 && (acc.samples.empty() || acc.points % 4099 == 5)) acc.samples.push_back(cx + fmt(" -> block %d fnum %d = %.2f Hz", pt.block, pt.fnum, pt.hz)); }
             if(lsb == 0) line.push_back({plo, pt.hz});
         }
         opn2_rt_noteOff(R.I.dev, (OPN2_UInt8)ch, (OPN2_UInt8)key);
